@@ -14,7 +14,7 @@ structure Inv (acc : St × Slice Stack) (done : List (Int × List Frame)) : Prop
   known : ∀ x ∈ done, ∀ f ∈ x.2, (acc.1.srcs.lookup f.key).isSome = true
   self : ∀ i s, acc.1.sources.elems[i]? = some s →
            s.self = Spec.selfOf acc.2.elems i ∧ s.places = Slice.lit []
-  root : ∃ s, acc.1.sources.elems[0]? = some s ∧ s.fullName = Str.ofString "root"
+  root : ∃ s, acc.1.sources.elems[0]? = some s ∧ s.fullName = Str.ofString "root" ∧ s.inlined = false
 
 theorem WF.pos {st : St} (h : WF st) : 0 < st.sources.elems.length := by rw [h.len]; omega
 
@@ -57,8 +57,8 @@ theorem selfOf_append_single (stacks : List Stack) (n : Stack) (i : Nat) :
   simp only [Spec.selfOf, List.filter_append, List.map_append, List.sum_append]
   congr 1
   by_cases h : n.sources.elems.getLast? = some i
-  · simp [List.filter_cons, h]
-  · simp [List.filter_cons, h]
+  · simp [h]
+  · simp [h]
 
 theorem WF_modify_self {st : St} (h : WF st) (i : Nat) (v : Int) :
     WF { st with sources := ⟨st.sources.nonnil,
@@ -164,7 +164,7 @@ theorem foldO_sampleStep (rest : List (Int × List Frame)) :
     exact ⟨acc2, by simp [foldO, h1, h2, bind, Outcome.bind], by simpa using i2⟩
 
 theorem Inv_init : Inv (St.init, Slice.lit []) [] := by
-  refine ⟨⟨rfl, rfl, ?_, ?_, ?_⟩, rfl, rfl, by simp, ?_, ⟨rootSource, rfl, rfl⟩⟩
+  refine ⟨⟨rfl, rfl, ?_, ?_, ?_⟩, rfl, rfl, by simp, ?_, ⟨rootSource, rfl, rfl, rfl⟩⟩
   · intro k i h; simp [St.init] at h
   · intro k i h; simp [St.init] at h
   · intro k k' i h; simp [St.init] at h
